@@ -52,7 +52,7 @@ def shape_of(m):
 
 def compare(rep, prop, cases, out, label="c"):
     """compare driver output lines with the oracle; returns stats"""
-    lines = out.splitlines()
+    lines = [l for l in out.splitlines() if not l.startswith("SZ ")]
     exp = []
     for (m, j, c) in cases:
         e = F.expected_line(m, j, c)
